@@ -10,6 +10,7 @@ PROP = {
              "request must be admitted'. Non-trivial: some request is refused while the quota is full and a later one is admitted after a release. "
              "distinct = canonical JSON of config+history"),
     "assumptions": [
+        "in one configuration of five the handling of every response fails inside the flow's response direction, before the quota's end flow is reached (an error injected at the execution of a Filter there: fault point proc.execute, hook ec5ca4b - with the shipped processors a response flow fails only through a user-provided processor). Whether such a response gives the slot back is left open (the slot counts as 'expired, not yet collected': either verdict is accepted); the proxy's failure report for the transaction, which follows two times out of three, or the expiry must give it back",
         "when the flow consults a second, independent quota, the two quotas' filters are the same pattern (h.com/*) in one case of three and nested patterns in the others (the concurrency quota on h.com/c and the second quota on h.com/*, or the other way round): both match every transaction, through two nodes of the filter tree whose system flows are merged for the transaction",
         "transaction ids come again: a request step may carry the id of an earlier transaction, which it does only if the transaction that carries that id at the moment has surely ended (answered, failed, answered early, or expired and collected) - it is then a new transaction like any other, and later responses for that id belong to it; with the non-plain id styles (now also 't<n>:' - a trailing colon) one history in three has 'a transaction that is never answered, its expiry and a collector pass, the quota filled, the id again'",
         "the gateway's log level (LOG_LEVEL: off in three cases of eight, else error / info / debug / trace; what is logged is thrown away, what a log statement does to build its arguments happens) is a generated part of every case of TestConcurrentQuotaHistories: no answer may depend on it; a failing case reports its level",
